@@ -22,7 +22,7 @@ impl Prop for C07 {
         vec!["bytes after the completion code of non-Success responses and the instance-id bits are not demanded".into()]
     }
     fn strategy(&self, _tier: Tier) -> BoxedStrategy<EncCase> {
-        (gen::enc_env(gen::addr7().boxed()), gen::resp_call(false)).prop_map(|(env, call)| EncCase { env, call }).boxed()
+        gen::enc_pair(gen::addr7().boxed(), gen::resp_call(false)).prop_map(|(env, call)| EncCase { env, call }).boxed()
     }
     fn budget(&self, tier: Tier) -> u64 {
         match tier {
